@@ -396,6 +396,37 @@ pub fn run_check(cfg: &Config) -> Outcome {
         }
         meta_json = json!({"pairs_tried": tried, "pairs_with_neutral_prefix_compared": compared, "compared_pairs_whose_prefix_contained_abort_or_postponement": faults, "sample": sample});
     }
+    // C14: accessor-table stage (every public accessor form, one call at a time, against the documented table)
+    let mut acc_json = serde_json::Value::Null;
+    let mut acc_violations: Vec<(String, usize, Vec<crate::acc::AccOp>, String)> = vec![];
+    if prop == "C14" && cfg.random_programs > 0 {
+        let seqs = if thorough { 400_000 } else { 24_000 };
+        let per = seqs / cfg.threads.max(1);
+        let results: Vec<crate::acc::AccStage> = std::thread::scope(|s| {
+            let hs: Vec<_> = (0..cfg.threads).map(|t| s.spawn(move || crate::acc::run_stage(cfg.seed.wrapping_mul(8191).wrapping_add(t as u64), per))).collect();
+            hs.into_iter().filter_map(|h| h.join().ok()).collect()
+        });
+        let mut sequences = 0;
+        let mut calls = 0;
+        let mut trig = 0;
+        let mut silent = 0;
+        let mut kinds = BTreeSet::new();
+        let mut merged: BTreeMap<String, (usize, Vec<crate::acc::AccOp>, String)> = BTreeMap::new();
+        for r in results {
+            sequences += r.sequences;
+            calls += r.calls;
+            trig += r.triggering;
+            silent += r.silent;
+            kinds.extend(r.kinds);
+            for (sig, (n, w, m)) in r.violations {
+                merged.entry(sig).or_insert((0, w, m)).0 += n;
+            }
+        }
+        for (sig, (n, w, m)) in merged {
+            acc_violations.push((sig, n, w, m));
+        }
+        acc_json = json!({"sequences": sequences, "accessor_calls_checked": calls, "calls_documented_to_trigger": trig, "calls_documented_not_to_trigger (listeners present)": silent, "accessor_forms_exercised": kinds});
+    }
     let known = load_known(&cfg.known);
     let open: Vec<&KnownFinding> = known.iter().filter(|k| k.property == prop && k.status == "open").collect();
     let _ = std::fs::create_dir_all(&cfg.replay_dir);
@@ -430,6 +461,17 @@ pub fn run_check(cfg: &Config) -> Outcome {
             }
         }
         violation_records.push(json!({"signature": sig, "count": count, "witness": witness.name, "message": msg, "replay": path, "known_finding": matched.map(|k| k.id.clone())}));
+    }
+    for (n, (sig, count, witness, msg)) in acc_violations.iter().enumerate() {
+        total_violations += count;
+        new_violations += count;
+        let small = crate::acc::shrink(witness, sig);
+        let path = format!("{}/{}-acc-{}-{}.json", cfg.replay_dir, prop, cfg.seed, n);
+        let rf = crate::acc::AccReplay { property: prop.to_string(), signature: sig.clone(), message: msg.clone(), acc_ops: small };
+        let _ = std::fs::write(&path, serde_json::to_string_pretty(&rf).unwrap());
+        println!("VIOLATION property={} replay={}", prop, path);
+        println!("  signature={} count={}: {}", sig, count, msg);
+        violation_records.push(json!({"signature": sig, "count": count, "message": msg, "replay": path, "known_finding": serde_json::Value::Null}));
     }
     for k in open.iter() {
         println!(
@@ -475,6 +517,7 @@ pub fn run_check(cfg: &Config) -> Outcome {
             "monitor_counters": g.counters,
             "stopped_by_watchdog": stop.load(Ordering::Relaxed),
             "metamorphic_stage": meta_json,
+            "accessor_table_stage": acc_json,
             "build_profile": if cfg!(debug_assertions) { "debug (debug assertions on)" } else { "release" },
         },
         "assumptions": [
@@ -529,7 +572,7 @@ pub fn nontrivial_rule(prop: &str) -> &'static str {
         "C11" => "directed recursion + stale-reference families + random fault-heavy profile; non-trivial = a tree that contained an abort, a postponement or a self-despawning system; distinct = distinct normalised trace shapes among those",
         "C12" => "directed family of all delivery sequences over 4 kinds x idle/busy x alone/interleaved + random same-sender profile; non-trivial = a (sender run, target) pair with >=2 deliveries of which >=1 found the target busy; distinct = distinct normalised trace shapes among those",
         "C13" => "directed recursion family + random many-runs profile; non-trivial = an instance with >=3 runs of which >=1 was a replay of a postponed command; distinct = distinct normalised trace shapes among those",
-        "C14" => "directed accessor family (accessor x value x entity state x calls x caller flavour) + random accessors profile; non-trivial = a non-triggering call while a listener exists, or a body with >=2 triggering calls; distinct = distinct normalised trace shapes among those",
+        "C14" => "directed accessor family (accessor x value x entity state x calls x caller flavour) + random accessors profile; non-trivial = a non-triggering call while a listener exists, or a body with >=2 triggering calls; distinct = distinct normalised trace shapes among those. Plus the accessor-table stage (coverage.accessor_table_stage): seeded sequences of 5-30 single accessor calls over all 33 public accessor forms on a dedicated world, each judged against the documented (reactions, stored value, return value) table",
         "C15" => "directed once-lifetime family + random once profile; non-trivial = a one-off reactor with >=2 trigger applications scheduled for it; distinct = distinct normalised trace shapes among those",
         "C16" => "directed world-reactor histories + partial revocation family + random world-reactors profile; non-trivial = runs of one entity world reactor for >=2 entities in one op, or a partial removal that keeps the local data; distinct = distinct normalised trace shapes among those",
         "C18" => "directed stale-reference family (operation x despawn point, entities and systems) + random stale-references profile; non-trivial = an operation whose target was observed dead when applied or when its reaction was reached; distinct = distinct normalised trace shapes among those",
@@ -539,6 +582,12 @@ pub fn nontrivial_rule(prop: &str) -> &'static str {
 
 /// Re-executes a replay file, prints the trace and the verdict. Returns true if the violation reproduces.
 pub fn replay(path: &str) -> bool {
+    if path.contains("-acc-") {
+        if let Some(hit) = crate::acc::replay(path) {
+            println!("replay of {}: {}", path, if hit { "REPRODUCED" } else { "not reproduced" });
+            return hit;
+        }
+    }
     let s = std::fs::read_to_string(path).expect("cannot read replay file");
     let rf: ReplayFile = serde_json::from_str(&s).expect("malformed replay file");
     let prog = Arc::new(rf.program);
